@@ -718,32 +718,32 @@ class RmBase16(rmregbase16):
         tokens.set_field("opcode", self.opcode)
 
 
-def make_rm64(mnemonic, opcode, o):
+def make_rm64(mnemonic, opcode, o, write=True):
     """Create an instruction taking a 64 bit r/m operand"""
-    rm = Operand("rm", rm64_modes)
+    rm = Operand("rm", rm64_modes, write=write)
     syntax = Syntax([mnemonic, " ", rm], priority=2)
     members = {"syntax": syntax, "rm": rm, "opcode": opcode, "reg": o}
     return type(mnemonic.title(), (RmBase,), members)
 
 
-def make_rm32(mnemonic, opcode, o):
+def make_rm32(mnemonic, opcode, o, write=True):
     """Create an instruction taking a 32 bit r/m operand"""
-    rm = Operand("rm", rm32_modes)
+    rm = Operand("rm", rm32_modes, write=write)
     syntax = Syntax([mnemonic, " ", rm], priority=2)
     members = {"syntax": syntax, "rm": rm, "opcode": opcode, "reg": o}
     return type(mnemonic.title(), (RmBase32,), members)
 
 
-def make_rm16(mnemonic, opcode, o):
+def make_rm16(mnemonic, opcode, o, write=True):
     """Create an instruction taking a 16 bit r/m operand"""
-    rm = Operand("rm", rm16_modes)
+    rm = Operand("rm", rm16_modes, write=write)
     syntax = Syntax([mnemonic, " ", rm], priority=2)
     members = {"syntax": syntax, "rm": rm, "opcode": opcode, "reg": o}
     return type(mnemonic.title(), (RmBase16,), members)
 
 
 Dec = make_rm64("dec", 0xFF, 1)
-Jmp = make_rm64("jmp", 0xFF, 4)
+Jmp = make_rm64("jmp", 0xFF, 4, write=False)
 # Inc = make_rm('jmp', 0xff, 4)
 
 
